@@ -1,0 +1,159 @@
+//! Verification hooks for deterministic simulation (feature `iggy_verif`, off by default).
+//!
+//! Server half of the seam declared in `iggy::verif`: an in-memory transport for the binary
+//! protocol, what a fresh OS process gets for free (reset of process-wide counters), constructors
+//! for background commands whose fields are private, and a read-only view of a partition used to
+//! label violations and count coverage probes. No storage or journal logic lives here.
+
+use crate::binary::sender::{Sender, SenderKind};
+use crate::channels::commands::maintain_messages::MaintainMessagesCommand;
+use crate::channels::commands::verify_heartbeats::VerifyHeartbeatsCommand;
+use crate::server_error::ServerError;
+use crate::streaming::clients::client_manager::Transport;
+use crate::streaming::systems::system::{SharedSystem, System};
+use crate::tcp::connection_handler::{handle_connection, handle_error};
+use crate::tcp::sender;
+use iggy::error::IggyError;
+use iggy::identifier::Identifier;
+use iggy::locking::IggySharedMutFn;
+use iggy::utils::duration::IggyDuration;
+use iggy::verif::SimStream;
+use std::net::SocketAddr;
+use tokio::io::AsyncWriteExt;
+
+pub use crate::command::ServerCommand;
+
+/// The binary protocol over an in-memory duplex pipe owned by the simulator.
+#[derive(Debug)]
+pub struct SimSender {
+    pub(crate) stream: SimStream,
+}
+
+impl Sender for SimSender {
+    async fn read(&mut self, buffer: &mut [u8]) -> Result<usize, IggyError> {
+        sender::read(&mut self.stream, buffer).await
+    }
+
+    async fn send_empty_ok_response(&mut self) -> Result<(), IggyError> {
+        sender::send_empty_ok_response(&mut self.stream).await
+    }
+
+    async fn send_ok_response(&mut self, payload: &[u8]) -> Result<(), IggyError> {
+        sender::send_ok_response(&mut self.stream, payload).await
+    }
+
+    async fn send_error_response(&mut self, error: IggyError) -> Result<(), IggyError> {
+        sender::send_error_response(&mut self.stream, error).await
+    }
+
+    async fn shutdown(&mut self) -> Result<(), ServerError> {
+        self.stream.shutdown().await.map_err(ServerError::IoError)
+    }
+}
+
+/// What `tcp_listener::start` does for every accepted socket, for a simulated connection.
+pub async fn serve_connection(address: SocketAddr, stream: SimStream, system: SharedSystem) {
+    let session = system
+        .read()
+        .await
+        .add_client(&address, Transport::Tcp)
+        .await;
+    let client_id = session.client_id;
+    let mut sender = SenderKind::Sim(SimSender { stream });
+    if let Err(error) = handle_connection(session, &mut sender, system.clone()).await {
+        handle_error(error);
+        system.read().await.delete_client(client_id).await;
+        let _ = sender.shutdown().await;
+    }
+}
+
+/// A new OS process starts with fresh process-wide counters; an in-process restart must too.
+pub fn reset_process_globals() {
+    crate::streaming::systems::streams::verif_reset_stream_id();
+    crate::streaming::systems::users::verif_reset_user_id();
+    crate::streaming::cache::memory_tracker::verif_reset();
+}
+
+pub fn maintain_messages_command(clean: bool, archive: bool) -> MaintainMessagesCommand {
+    MaintainMessagesCommand::verif_new(clean, archive)
+}
+
+pub fn verify_heartbeats_command(interval: IggyDuration) -> VerifyHeartbeatsCommand {
+    VerifyHeartbeatsCommand::verif_new(interval)
+}
+
+#[derive(Debug, Clone, PartialEq, Eq)]
+pub struct SegmentView {
+    pub start_offset: u64,
+    pub end_offset: u64,
+    pub current_offset: u64,
+    pub is_closed: bool,
+    pub size_bytes: u64,
+    pub log_size_bytes: u64,
+    pub index_size_bytes: u64,
+    pub unsaved: Option<(u64, u64, usize)>,
+    pub cached_indexes: Option<usize>,
+}
+
+#[derive(Debug, Clone, PartialEq, Eq)]
+pub struct PartitionView {
+    pub partition_id: u32,
+    pub current_offset: u64,
+    pub should_increment_offset: bool,
+    pub unsaved_messages_count: u32,
+    pub cache_range: Option<(u64, u64)>,
+    pub segments: Vec<SegmentView>,
+}
+
+/// Read-only description of a partition (coverage probes and violation labels only).
+pub async fn inspect_partition(
+    system: &System,
+    stream_id: u32,
+    topic_id: u32,
+    partition_id: u32,
+) -> Option<PartitionView> {
+    let stream = system
+        .get_stream(&Identifier::numeric(stream_id).ok()?)
+        .ok()?;
+    let topic = stream
+        .get_topic(&Identifier::numeric(topic_id).ok()?)
+        .ok()?;
+    let partition = topic.get_partition(partition_id).ok()?;
+    let partition = partition.read().await;
+    let cache_range = partition.cache.as_ref().and_then(|cache| {
+        if cache.is_empty() {
+            None
+        } else {
+            Some((cache[0].offset, cache[cache.len() - 1].offset))
+        }
+    });
+    let segments = partition
+        .get_segments()
+        .iter()
+        .map(|segment| SegmentView {
+            start_offset: segment.start_offset,
+            end_offset: segment.end_offset,
+            current_offset: segment.current_offset,
+            is_closed: segment.is_closed,
+            size_bytes: segment.size_bytes.as_bytes_u64(),
+            log_size_bytes: segment.verif_log_size_bytes(),
+            index_size_bytes: segment.verif_index_size_bytes(),
+            unsaved: segment.unsaved_messages.as_ref().map(|accumulator| {
+                (
+                    accumulator.batch_base_offset(),
+                    accumulator.batch_max_offset(),
+                    accumulator.unsaved_messages_count(),
+                )
+            }),
+            cached_indexes: segment.indexes.as_ref().map(|indexes| indexes.len()),
+        })
+        .collect();
+    Some(PartitionView {
+        partition_id,
+        current_offset: partition.current_offset,
+        should_increment_offset: partition.should_increment_offset,
+        unsaved_messages_count: partition.unsaved_messages_count,
+        cache_range,
+        segments,
+    })
+}
